@@ -70,7 +70,11 @@ def gen_cms(rng):
             ops.append(["add", rng.randrange(live), gen_delta(rng)])
         else:
             ops.append(["batch", [rng.randrange(live) for _ in range(rng.randint(0, 6))], gen_delta(rng)])
-    return {"kind": "cms", "depth": depth, "width": width, "seed": rng.randint(0, 2 ** 31 - 1), "items": items, "ops": ops}
+    case = {"kind": "cms", "depth": depth, "width": width, "seed": rng.randint(0, 2 ** 31 - 1), "items": items, "ops": ops}
+    if width <= 64 and rng.random() < 0.25:
+        # pre-filled matrix handed to the constructor: rows no longer agree, so min over rows is exercised
+        case["M0"] = [[rng.choice([0, 0, 1, 2, 5, rng.randint(0, 50)]) for _ in range(width)] for _ in range(depth)]
+    return case
 
 
 def gen_counter(rng):
@@ -88,6 +92,122 @@ def gen_counter(rng):
     return {"kind": "counter", "bound": bound, "items": items, "ops": ops}
 
 
+def gen_pipeline(rng):
+    cols = rng.sample(["a", "b", "n", "id", "feature_x"], rng.randint(1, 3))
+    kinds = {c: rng.choice(["s", "s", "i"]) for c in cols}
+    pools = {c: ([rng.choice(STRS[1:]) + str(rng.randint(0, 6)) for _ in range(rng.randint(1, 8))] if kinds[c] == "s"
+                 else [rng.randint(-3, 12) for _ in range(rng.randint(1, 8))]) for c in cols}
+    high = {c: rng.random() < 0.3 for c in cols}
+    fresh = [0]
+
+    def cell(c):
+        if high[c] and rng.random() < 0.7:
+            fresh[0] += 1
+            return ("u%d" % fresh[0]) if kinds[c] == "s" else 1000 + fresh[0]
+        return rng.choice(pools[c])
+    batches = []
+    for _ in range(rng.randint(1, 5)):
+        rows = rng.randint(1, 12)
+        batches.append({c: [cell(c) for _ in range(rows)] for c in cols})
+    return {"kind": "pipeline", "bound": rng.choice([1, 2, 3, 4, 5, 5, 8, 10, 30000]), "batches": batches}
+
+
+def pipe_streams(case):
+    """Per column: (value ids in feeding order, batch end positions, id -> value)."""
+    out = {}
+    for col in case["batches"][0]:
+        ids, ends, names = [], [], {}
+        for b in case["batches"]:
+            for v in b[col]:
+                k = ("s" if isinstance(v, str) else "i", v)
+                if k not in names:
+                    names[k] = len(names)
+                ids.append(names[k])
+            ends.append(len(ids))
+        out[col] = (ids, ends, names)
+    return out
+
+
+def pipe_compare(case, r, models):
+    """models: {col: [counter after every item]}.  First disagreement (batch, col, text) or None."""
+    if not r["ok"]:
+        return (len(r["obs"]), None, "implementation raised %s" % r["error"])
+    st = pipe_streams(case)
+    for b, ob in enumerate(r["obs"]):
+        for col, (ids, ends, names) in st.items():
+            mo = dict(models[col][ends[b] - 1]) if ends[b] > 0 else {}
+            im = {}
+            for k, v in ob.get(col, []):
+                im[names.get(("s" if isinstance(k, str) else "i", k), -1)] = v
+            if im != mo or len(im) != len(ob.get(col, [])):
+                return (b, col, "GLOBAL_COUNTS_STORAGE[%r].default_counter after batch %d: implementation %s, model (fed item by item, bound %d) %s"
+                        % (col, b, sorted(ob.get(col, []), key=repr), case["bound"], sorted(mo.items())))
+    return None
+
+
+def pipe_prop_fail(case, r):
+    """Python rendering of the counter clauses on the pipeline's counters (steers reporting/shrinking only)."""
+    if not r["ok"]:
+        return False
+    st = pipe_streams(case)
+    for b, ob in enumerate(r["obs"]):
+        for col, (ids, ends, names) in st.items():
+            inv = {v: k for k, v in names.items()}
+            seen = [inv[i][1] for i in ids[:ends[b]]]
+            cnt = {k: v for k, v in ob.get(col, [])}
+            if len(cnt) > max(case["bound"], 0) or any(v > seen.count(k) for k, v in cnt.items()):
+                return True
+            if len(set(seen)) < case["bound"] and any(cnt.get(k, 0) != seen.count(k) for k in set(seen)):
+                return True
+    return False
+
+
+def pipe_mirror_models(case):
+    out = {}
+    for col, (ids, ends, names) in pipe_streams(case).items():
+        out[col] = [sorted(c.items()) for c in counter_mirror({"bound": case["bound"], "ops": [["add", i] for i in ids]})]
+    return out
+
+
+def pipe_shrink(case, prop_level=False):
+    cur = case
+    for _ in range(6):
+        cands = []
+        nb = len(cur["batches"])
+        for b in range(nb):
+            if nb > 1:
+                cands.append(dict(cur, batches=cur["batches"][:b] + cur["batches"][b + 1:]))
+            rows = len(next(iter(cur["batches"][b].values())))
+            for i in range(rows):
+                if rows > 1:
+                    nbatch = {c: v[:i] + v[i + 1:] for c, v in cur["batches"][b].items()}
+                    cands.append(dict(cur, batches=cur["batches"][:b] + [nbatch] + cur["batches"][b + 1:]))
+        cols = list(cur["batches"][0])
+        for c in cols:
+            if len(cols) > 1:
+                cands.append(dict(cur, batches=[{k: v for k, v in bt.items() if k != c} for bt in cur["batches"]]))
+        cands = cands[:300]
+        if not cands:
+            break
+        try:
+            rs = vlib.run_impl("impl_c15.py", {"cases": cands})["results"]
+        except vlib.Broken:
+            break
+        hit = [c for c, r in zip(cands, rs) if r["ok"] and
+               (pipe_prop_fail(c, r) if prop_level else pipe_compare(c, r, pipe_mirror_models(c)) is not None)]
+        if not hit:
+            break
+        cur = min(hit, key=lambda c: sum(len(v) for bt in c["batches"] for v in bt.values()))
+    return cur
+
+
+def pipe_coq(case):
+    st = pipe_streams(case)
+    cols = list(st)
+    exprs = ["ctrace %s%%Z [] [%s]" % (vlib.zlit(case["bound"]), "; ".join("CAdd %d" % i for i in st[c][0])) for c in cols]
+    return cols, exprs
+
+
 def load_corpus(pid):
     d = os.path.join(vlib.VERIF, "corpus", pid)
     out = []
@@ -103,7 +223,7 @@ def load_corpus(pid):
 
 def cms_mirror(case, loc):
     d, w = case["depth"], case["width"]
-    M = [[0] * w for _ in range(d)]
+    M = [list(r) for r in case["M0"]] if case.get("M0") is not None else [[0] * w for _ in range(d)]
     out = []
     for op in case["ops"]:
         xs = [op[1]] if op[0] == "add" else op[1]
@@ -111,7 +231,7 @@ def cms_mirror(case, loc):
             for i in range(d):
                 M[i][loc[i][x]] += op[2]
         out.append({"q": [min(M[i][loc[i][x]] for i in range(d)) for x in range(len(case["items"]))],
-                    "cells": {(i, j): M[i][j] for i in range(d) for j in set(loc[i])},
+                    "cells": {(i, j): M[i][j] for i in range(d) for j in (range(w) if case.get("M0") is not None else set(loc[i]))},
                     "rows": [sum(r) for r in M]})
     return out
 
@@ -142,6 +262,8 @@ def cms_ops(case):
 
 def cms_probe_cells(case, r):
     cells = set()
+    if case.get("M0") is not None:
+        cells.update((i, j) for i in range(case["depth"]) for j in range(case["width"]))
     for i, row in enumerate(r["loc"]):
         for j in row:
             cells.add((i, j))
@@ -153,9 +275,12 @@ def cms_probe_cells(case, r):
 
 def cms_expr(case, r, cells):
     table = "[" + "; ".join(vlib.nlist(row) for row in r["loc"]) + "]"
-    return ("obs (N.to_nat %d) (N.to_nat %d) (fun i x => nth (N.to_nat x) (nth i %s []) 0) %s %s %s" % (
-        case["depth"], case["width"], table, vlib.nlist(range(len(case["items"]))),
-        "[" + "; ".join("(%d, %d)" % c for c in cells) + "]", cms_ops(case)))
+    args = (case["depth"], case["width"], table, vlib.nlist(range(len(case["items"]))),
+            "[" + "; ".join("(%d, %d)" % c for c in cells) + "]")
+    if case.get("M0") is not None:
+        return ("obs_from (N.to_nat %d) (N.to_nat %d) (fun i x => nth (N.to_nat x) (nth i %s []) 0) %s %s " % args +
+                "%s%%Z %s" % (vlib.zlistlist(case["M0"]), cms_ops(case)))
+    return "obs (N.to_nat %d) (N.to_nat %d) (fun i x => nth (N.to_nat x) (nth i %s []) 0) %s %s " % args + cms_ops(case)
 
 
 def cms_verdict_expr(case, r):
@@ -245,7 +370,7 @@ def shrink(case):
                 if ops:
                     cands.append(dict(cur, ops=ops))
             size //= 2
-        if cur["kind"] == "cms":
+        if cur["kind"] == "cms" and cur.get("M0") is None:
             for w in (1, 2, 3, 5, 16):
                 if w < cur["width"]:
                     cands.append(dict(cur, width=w))
@@ -323,12 +448,18 @@ def check(run, replay):
         n = 260 if run.tier == "quick" else 2500
         for i in range(n):
             cases.append(gen_cms(run.rng) if i % 5 < 3 else gen_counter(run.rng))
+        for _ in range(60 if run.tier == "quick" else 400):
+            cases.append(gen_pipeline(run.rng))
     out = vlib.run_impl("impl_c15.py", {"cases": cases})
     res = out["results"]
 
     exprs, meta = [], []
     for c, r in zip(cases, res):
-        if c["kind"] == "cms":
+        if c["kind"] == "pipeline":
+            cols, ex = pipe_coq(c)
+            exprs.extend(ex)
+            meta.append(cols)
+        elif c["kind"] == "cms":
             if r["loc"] is None:
                 meta.append(None)
                 continue
@@ -339,18 +470,37 @@ def check(run, replay):
             exprs.append(counter_expr(c))
             meta.append(True)
     vals = iter(vlib.coq_eval("C15", HEADER, exprs, shard=12))
-    hist = {"cms": 0, "counter": 0, "depth": {}, "width": {}, "collisions": 0, "weighted": 0, "never_inserted_queried": 0,
-            "counter_bound_reached": 0, "counter_with_batches": 0, "ops": {}, "impl_errors": 0}
+    hist = {"cms": 0, "counter": 0, "pipeline": 0, "pipeline_bound_crossed_inside_a_batch": 0, "depth": {}, "width": {}, "collisions": 0, "weighted": 0, "never_inserted_queried": 0,
+            "counter_bound_reached": 0, "counter_with_batches": 0, "ops": {}, "impl_errors": 0,
+            "prefilled_matrix": 0, "prefilled_rows_disagree": 0, "fresh_sketch_rows_disagree": 0}
     fails = []
     mirror_bad = 0
     for i, (c, r, mt) in enumerate(zip(cases, res, meta)):
         hist[c["kind"]] += 1
-        b = len(c["ops"]) // 10 * 10
-        hist["ops"][b] = hist["ops"].get(b, 0) + 1
+        if "ops" in c:
+            b = len(c["ops"]) // 10 * 10
+            hist["ops"][b] = hist["ops"].get(b, 0) + 1
         if mt is None:
             hist["impl_errors"] += 1
             run.count_case(c, False)
             fails.append((i, (0, "implementation raised %s" % r["error"])))
+            continue
+        if c["kind"] == "pipeline":
+            models = {col: [[(k, n) for k, n in cnt] for cnt in next(vals)] for col in mt}
+            pm = pipe_mirror_models(c)
+            if any([sorted(x) for x in models[col]] != [[tuple(e) for e in s] for s in pm[col]] for col in mt):
+                mirror_bad += 1
+            crossed = False
+            for col, (ids, ends, names) in pipe_streams(c).items():
+                for b, e in enumerate(ends):
+                    s0 = ends[b - 1] if b else 0
+                    if len(set(ids[:s0])) < c["bound"] < len(set(ids[:e])):
+                        crossed = True
+            hist["pipeline_bound_crossed_inside_a_batch"] += crossed
+            run.count_case(c, crossed)
+            d = pipe_compare(c, r, models)
+            if d is not None:
+                fails.append((i, d))
             continue
         v = next(vals)
         if c["kind"] == "cms":
@@ -362,9 +512,14 @@ def check(run, replay):
             for op in c["ops"]:
                 used.update([op[1]] if op[0] == "add" else op[1])
             hist["collisions"] += coll
+            if c.get("M0") is not None:
+                hist["prefilled_matrix"] += 1
+                hist["prefilled_rows_disagree"] += r.get("probe_spread", 0) > 0
+            else:
+                hist["fresh_sketch_rows_disagree"] += r.get("probe_spread", 0) > 0
             hist["weighted"] += wtd
             hist["never_inserted_queried"] += len(used) < len(c["items"])
-            run.count_case(c, coll or wtd)
+            run.count_case(c, coll or wtd or c.get("M0") is not None)
             model = [tuple(x) for x in v]
             mm = cms_mirror(c, r["loc"])
             for mo, pm in zip(model, mm):
@@ -392,12 +547,48 @@ def check(run, replay):
     if mirror_bad:
         run.violation("broken-obligation", "python mirror differs from the Coq model", found_input=False)
 
-    reported = {"cms": 0, "counter": 0}
+    reported = {"cms": 0, "counter": 0, "pipeline": 0}
+    fails.sort(key=lambda f: (cases[f[0]]["kind"] == "pipeline" and not pipe_prop_fail(cases[f[0]], res[f[0]]), f[0]))
     for i, d in fails:
         c, r = cases[i], res[i]
         if reported[c["kind"]] >= 2:
             continue
         reported[c["kind"]] += 1
+        if c["kind"] == "pipeline":
+            small = pipe_shrink(dict(c, batches=c["batches"][:d[0] + 1]), prop_level=pipe_prop_fail(c, r)) if r["ok"] else c
+            rr = vlib.run_impl("impl_c15.py", {"cases": [small]})["results"][0]
+            clause, verdict, model = d[2], None, None
+            if rr["ok"]:
+                cols, ex = pipe_coq(small)
+                st = pipe_streams(small)
+                chk = []
+                for col in cols:
+                    ids, ends, names = st[col]
+                    for b, ob in enumerate(rr["obs"]):
+                        cnt = "[" + "; ".join("(%d, %s%%Z)" % (names.get(("s" if isinstance(k, str) else "i", k), 999999), vlib.zlit(v))
+                                              for k, v in ob.get(col, [])) + "]"
+                        chk.append("ccheck1 %s%%Z %s true %s %s" % (vlib.zlit(small["bound"]), vlib.nlist(range(len(names))),
+                                                                     vlib.nlist(ids[:ends[b]]), cnt))
+                try:
+                    out2 = vlib.coq_eval("C15", HEADER, ex + ["[" + "; ".join(chk) + "]"])
+                    model = {col: m for col, m in zip(cols, out2[:len(cols)])}
+                    verdict = out2[-1]
+                    d2 = pipe_compare(small, rr, {col: [[(k, n) for k, n in cnt] for cnt in model[col]] for col in cols})
+                    if d2 is not None:
+                        clause = d2[2]
+                    if False in verdict:
+                        clause = ("C15_b_check (Coq) fails on the counter the pipeline keeps (no over-count / exact below the bound / "
+                                  "at most bound distinct values when fed item by item): ") + clause
+                    else:
+                        clause = "correspondence with the model (compute_cardinalities feeds the counter item by item): " + clause
+                except vlib.Broken:
+                    pass
+            else:
+                clause = "compute_cardinalities terminates normally: %s" % rr["error"]
+            run.violation("counterexample", "C15 model/implementation correspondence (pipeline)", case=small,
+                          impl={"obs": rr["obs"], "error": rr["error"]}, model=repr(model)[:3000], clause=clause,
+                          extra={"checker_verdict": verdict})
+            continue
         cut = dict(c, ops=c["ops"][:d[0] + 1])
         small = shrink(cut)
         rr = vlib.run_impl("impl_c15.py", {"cases": [small]})["results"][0]
@@ -405,7 +596,10 @@ def check(run, replay):
         try:
             if small["kind"] == "cms" and rr["loc"] is not None:
                 cells = cms_probe_cells(small, rr)
-                model, verdict = vlib.coq_eval("C15", HEADER, [cms_expr(small, rr, cells), cms_verdict_expr(small, rr)])
+                if small.get("M0") is not None:      # bounds against the stream do not apply to a pre-filled matrix
+                    model = vlib.coq_eval("C15", HEADER, [cms_expr(small, rr, cells)])[0]
+                else:
+                    model, verdict = vlib.coq_eval("C15", HEADER, [cms_expr(small, rr, cells), cms_verdict_expr(small, rr)])
             elif small["kind"] == "counter":
                 model, verdict = vlib.coq_eval("C15", HEADER, [counter_expr(small), counter_verdict_expr(small, rr)])
         except vlib.Broken:
@@ -417,12 +611,15 @@ def check(run, replay):
     ncms = sum(1 for c in cases if c["kind"] == "cms")
     run.oblige("correspondence: count-min matrix, row sums and query after every prefix (%d streams)" % ncms,
                not any(cases[i]["kind"] == "cms" for i, _ in fails), "%d streams disagree" % sum(1 for i, _ in fails if cases[i]["kind"] == "cms"))
-    run.oblige("correspondence: bounded counter default_counter after every prefix (%d streams)" % (len(cases) - ncms),
+    ncnt = sum(1 for c in cases if c["kind"] == "counter")
+    run.oblige("correspondence: bounded counter default_counter after every prefix (%d streams)" % ncnt,
                not any(cases[i]["kind"] == "counter" for i, _ in fails), "%d streams disagree" % sum(1 for i, _ in fails if cases[i]["kind"] == "counter"))
+    run.oblige("correspondence: counter kept by core_ranking.compute_cardinalities after every mini-batch (%d histories)" % (len(cases) - ncms - ncnt),
+               not any(cases[i]["kind"] == "pipeline" for i, _ in fails), "%d histories disagree" % sum(1 for i, _ in fails if cases[i]["kind"] == "pipeline"))
     run.cov["input_distribution"] = hist
     run.cov["default_bound_of_a_fresh_counter"] = out.get("default_bound")
     run.cov["exhaustive"] = False
-    run.samples = [next((c for c in cases if c["kind"] == "cms"), None), next((c for c in cases if c["kind"] == "counter"), None)]
+    run.samples = [next((c for c in cases if c["kind"] == k), None) for k in ("cms", "counter", "pipeline")]
     run.assumptions += [
         "items are abstracted to ids by the harness (equality of ids = Python equality of the int / str items; ints and strs only)",
         "weights are non-negative Python ints and the total weight of a stream stays below 2^31: int32 wrap-around of the matrix is outside the property and the model uses Z",
